@@ -116,6 +116,13 @@ func Canon(v Val) any {
 			return map[string]any{"Title": "Ms", "Extra": true, "Num": int64(9)}
 		}
 		return map[string]any{"Num": "n"}
+	case "sharedptr":
+		s := sharedPtrs[int(v.I)%len(sharedPtrs)]
+		links := make([]any, len(s.Links))
+		for i, l := range s.Links {
+			links[i] = l
+		}
+		return map[string]any{"Name": s.Name, "Year": int64(s.Year), "Links": links}
 	case "ptr":
 		return Canon(v.A[0])
 	}
